@@ -176,6 +176,7 @@ def resolve_strategy_inline_attachments(base_path, attachments, decisions):
     ldiffs_by_key = {d.key: d for d in local_conflict_diffs}
     rdiffs_by_key = {d.key: d for d in remote_conflict_diffs}
     conflict_keys = sorted(set(ldiffs_by_key) | set(rdiffs_by_key))
+    replaced_names = set()
 
     for key in conflict_keys:
         # key is the attachment filename
@@ -222,6 +223,7 @@ def resolve_strategy_inline_attachments(base_path, attachments, decisions):
                 nbdime.log.warning(
                     "Replacing previous conflicted attachment with filename %r", local_name)
                 custom_diff += [op_replace(local_name, local)]
+                replaced_names.add(local_name)
             else:
                 custom_diff += [op_add(local_name, local)]
 
@@ -229,10 +231,25 @@ def resolve_strategy_inline_attachments(base_path, attachments, decisions):
                 nbdime.log.warning(
                     "Replacing previous conflicted attachment with filename %r", remote_name)
                 custom_diff += [op_replace(remote_name, remote)]
+                replaced_names.add(remote_name)
             else:
                 custom_diff += [op_add(remote_name, remote)]
 
             decisions.custom(base_path, ld, rd, custom_diff, conflict=True, strategy=strategy)
+
+    if replaced_names:
+        # Attachments left over from a previous merge are replaced above, so
+        # changes that one side made to those leftovers are superseded
+        level = len(base_path)
+
+        def on_replaced(d):
+            if d.action == "custom":
+                return False
+            if len(d.common_path) > level:
+                return d.common_path[level] in replaced_names
+            entries = list(d.local_diff or ()) + list(d.remote_diff or ())
+            return entries and all(e.key in replaced_names for e in entries)
+        decisions.decisions = [d for d in decisions if not on_replaced(d)]
 
 
 def output_marker(text):
